@@ -149,7 +149,7 @@ def syncLoop (cfg : Cfg) (sigF : FieldId) : Nat → Nat → St → St
     let (got, st1) := st.sread cfg 4
     let tmp1 := scalarMerge 4 tmp got
     if tmp1 = SIG then { st1 with obj := st1.obj.setNum sigF tmp1 }
-    else if st1.eof then { st1 with halt := .exc }
+    else if st1.eof || decide (got.length < 4) then { st1 with halt := .exc }   -- is.eof() || is.gcount() < 4
     else
       let st2 :=
         if tmp1 / 256 % 16777216 = 0x424F4C then st1.sback 3        -- (0xffffff00 & tmp) == 0x424f4c00
